@@ -1,6 +1,7 @@
 import torch
 import functools
 from typing import Optional
+from xitorch._utils import verif_hooks as _vh
 
 __all__ = ["rk23_adaptive", "rk45_adaptive"]
 
@@ -104,6 +105,8 @@ class RKAdaptiveStepSolver(object):
             scale = self.atol + torch.max(y0.norm(), ynew.norm()) * self.rtol
             errnorm = self._error_norm(self.K, hstep) / scale
             accepted = errnorm < 1
+            if _vh.ENABLED:
+                _vh_h_in = h
 
             # adjust the step size
             if accepted and not t1_achieved:
@@ -120,6 +123,9 @@ class RKAdaptiveStepSolver(object):
                 factor = max(self.min_factor, self.step_mult * errnorm ** self.error_exponent)
                 h = hstep * factor
 
+            if _vh.ENABLED:
+                _vh.emit("ark.try", t0=t0, t1=t1, h_in=_vh_h_in, hstep=hstep, tnew=tnew, t1_achieved=t1_achieved,
+                         accepted=bool(accepted), prev_rejected=prev_rejected, h_out=h, errnorm=errnorm, solver=self)
             prev_rejected = not accepted
 
         rk_state = (fnew, tnew, ynew, h)
